@@ -3,3 +3,8 @@
 pub mod exec;
 pub mod fastc;
 pub mod swaygen;
+
+/// glibc malloc grows per-thread arenas with one mprotect per page run, which serialises 16 compiling threads on the
+/// process's mmap lock (most of the wall time was system time); jemalloc does not.
+#[global_allocator]
+static GLOBAL: tikv_jemallocator::Jemalloc = tikv_jemallocator::Jemalloc;
